@@ -400,29 +400,46 @@ def aipsw_dr_part(ctx, fails, n_frames=None):
     """Exact double robustness of AIPSW (C02): one side saturated, the other a random strict sub-model.
     side 'Q' = outcome model saturated, sampling/treatment models wrong; side 'W' = the reverse."""
     n_frames = n_frames or (10 if ctx.quick else 120)
-    cases, exprs, work = [], [], []
+    cases = []
     for fid in range(n_frames):
         df, meta = make_frame(ctx.rng)
         recorded = ctx.rng.random() < 0.25          # treatment also recorded for the non-sampled rows (still junk outcomes)
         d = junk_frame(df, ctx.rng, meta, fill_a=recorded)
         cases.append((fid, d, meta, recorded))
+    _aipsw_dr_cases(ctx, fails, cases, None)
+
+
+def aipsw_dr_replay(ctx, fails, payload):
+    """re-run exactly the configuration stored in a replay payload of aipsw_dr_part (used by c02.replay)"""
+    d = frame_of(payload)
+    fixed = (payload['generalize'], payload['stabilized'], payload['treatment_model'], payload['side'],
+             payload['fS'], payload['fA'], payload['fQ'])
+    _aipsw_dr_cases(ctx, fails, [(0, d, payload['meta'], payload.get('recorded_A', False))], fixed)
+
+
+def _aipsw_dr_cases(ctx, fails, cases, fixed):
+    exprs, work = [], []
     pre = 'Open Scope Q_scope.\n' + ''.join('Definition rows_%d : list graw := %s.\n' % (fid, raw_rows(d)) for fid, d, meta, rec in cases)
     for fid, d, meta, recorded in cases:
         exprs.append('(Qflat (gstd_out true (bare rows_%d)), Qflat (gstd_out false (bare rows_%d)), '
                      'map (fun p => (Z.of_nat (fst p), Qflat (snd p))) (cells_out (bare rows_%d)))' % (fid, fid, fid))
         work.append(('spec', fid, None))
         combos = [(gen, stab, side) for gen in (True, False) for stab in (True, False) for side in ('Q', 'W')]
+        if fixed:
+            combos = [(fixed[0], fixed[1], fixed[3])]
         extra = ctx.rng.choice(combos)
         for gen, stab, side in combos:
-                    with_model = meta['n'] <= EXACT_N or (side == 'W' and stab) or (gen, stab, side) == extra
-                    rx = True if side == 'W' else ctx.rng.random() < 0.7
-                    fS = meta['sat_W'] if side == 'W' else ctx.rng.choice(meta['sub_W'])
-                    fA = meta['sat_W'] if side == 'W' else ctx.rng.choice(meta['sub_W'])
-                    fQ = meta['sat_AW'] if side == 'Q' else ctx.rng.choice(meta['sub_AW'])
-                    r = run_est('AIPSW', d, meta, gen, stab, rx, fS=fS, fA=fA, fQ=fQ)
-                    ctx.evaluations += 1
-                    work.append(('est', fid, (gen, stab, rx, side, fS, fA, fQ, r)))
-                    exprs.append(model_expr('AIPSW', fid, gen, stab, rx, r) if 'error' not in r and with_model else 'Qflat [0]')
+            with_model = meta['n'] <= EXACT_N or (side == 'W' and stab) or (gen, stab, side) == extra or bool(fixed)
+            rx = True if side == 'W' else ctx.rng.random() < 0.7
+            fS = meta['sat_W'] if side == 'W' else ctx.rng.choice(meta['sub_W'])
+            fA = meta['sat_W'] if side == 'W' else ctx.rng.choice(meta['sub_W'])
+            fQ = meta['sat_AW'] if side == 'Q' else ctx.rng.choice(meta['sub_AW'])
+            if fixed:
+                rx, fS, fA, fQ = fixed[2], fixed[4], fixed[5], fixed[6]
+            r = run_est('AIPSW', d, meta, gen, stab, rx, fS=fS, fA=fA, fQ=fQ)
+            ctx.evaluations += 1
+            work.append(('est', fid, (gen, stab, rx, side, fS, fA, fQ, r)))
+            exprs.append(model_expr('AIPSW', fid, gen, stab, rx, r) if 'error' not in r and with_model else 'Qflat [0]')
     res, errs = coq_eval(ctx, 'c02aipsw', IMPORTS, exprs, shard=4, preamble=pre)
     if errs:
         ctx.broken_ties.append('coq evaluation failed: ' + errs[0][1][-400:])
@@ -516,8 +533,9 @@ def replay(ctx, payload):
         clean = d.copy()
         clean.loc[clean['S'] == 0, ['A', 'Y']] = float('nan')
         if payload.get('part') == 'aipsw_dr':
-            ctx.notes.append('replay of an AIPSW double-robustness case: run ./check C02 --replay for the comparison')
-        std_part(ctx, fails, cases=[(0, clean, d, meta)])
+            aipsw_dr_replay(ctx, fails, payload)
+        else:
+            std_part(ctx, fails, cases=[(0, clean, d, meta)])
     else:
         std_part(ctx, fails)
     report(ctx, fails)
